@@ -196,6 +196,13 @@ func (e *Exec) Do(op Op) (res Result) {
 			if err == nil {
 				e.set(op.Dst, t)
 			}
+		case "parsefszero":
+			// the zero TrustedFS (clients can make it: the struct type is exported)
+			_, err := h.ParseFS(template.TrustedFS{}, "*")
+			setErr(err)
+			if _, err2 := (template.TrustedFS{}).Sub(template.TrustedSourceFromFlag(flagValue("sub"))); err == nil {
+				setErr(err2)
+			}
 		case "clone":
 			t, err := h.Clone()
 			setErr(err)
@@ -447,6 +454,10 @@ func Gen(r *core.Rng, o GenOpts) (*History, gen.Set) {
 	nextVar := 1
 	for _, m := range set.Modes {
 		if m == "empty-callee" {
+			if r.Bool() {
+				// ... and that replaces a template which had one
+				add(Op{Kind: "parse", H: 0, Dst: 0, Text: `{{define "emptyT"}}old body {{$.S0}}{{end}}`})
+			}
 			// a template that exists but has no body: New without Parse
 			add(Op{Kind: "tnew", H: 0, Dst: nextVar, Name: "emptyT"})
 			nextVar++
@@ -581,7 +592,9 @@ func Gen(r *core.Rng, o GenOpts) (*History, gen.Set) {
 				nextVar++
 			}
 		case k < 93 && o.WildOps:
-			if r.Bool() {
+			if r.Intn(4) == 0 {
+				add(Op{Kind: "parsefszero", H: v, Dst: -1})
+			} else if r.Bool() {
 				add(Op{Kind: "csp", H: v, Dst: -1})
 			} else {
 				// execute the handle itself, twice
